@@ -489,14 +489,38 @@ def exec_sut(sut, op, refs, model):
                 g.close()  # the caller drops the unfinished request only now
             return ("ok", None)
     except TraphException:
+        if k in _WE_EDITS:
+            # whether a refused webentity request has already created the trie nodes of the
+            # prefixes it names is nowhere promised: the outcome says which of them exist now
+            named = _named_prefixes(op, refs)
+            return ("refused", tuple(p for p in named if t.lru_trie.lru_node(p) is not None))
         return ("refused",)
     raise ValueError("unknown op %r" % (k,))
+
+
+_WE_EDITS = ("create_we", "add_prefix", "remove_prefix", "move_prefix", "delete_we")
+
+
+def _named_prefixes(op, refs):
+    k = op["op"]
+    if k == "create_we":
+        out = [dec(p) for p in op["prefixes"]]
+    elif k == "delete_we":
+        out = list(refs.get("prefixes", []))
+    else:
+        out = [dec(op["prefix"])]
+    seen = []
+    for p in out:
+        if p not in seen:
+            seen.append(p)
+    return sorted(seen)
 
 
 def exec_model(model, op, refs, observed):
     """Apply the op to the model; returns (expected outcome, note).  For rule
     installation the observed report is needed (existential oracle)."""
     k = op["op"]
+    nodes_before = set(model.nodes) if k in _WE_EDITS and observed and observed[0] == "refused" and len(observed) > 1 else None
     try:
         if k == "add_page":
             return canon_model_report(model.add_page(dec(op["lru"]), op.get("crawled", False))), None
@@ -583,6 +607,13 @@ def exec_model(model, op, refs, observed):
             model.reset(d, rules)
             return ("ok", None), None
     except Refused:
+        if nodes_before is not None:
+            # a refused webentity request: the model's node set follows what the index shows for the
+            # prefixes the request named (nothing else may have changed)
+            from .model import stem_prefixes as _sp
+
+            model.nodes = nodes_before | {q for p in observed[1] for q in _sp(p)}
+            return ("refused", observed[1]), None
         return ("refused",), None
     raise ValueError("unknown op %r" % (k,))
 
